@@ -477,7 +477,72 @@ class ModuleUnderTestSpec(Spec):
                                                       'verbose': verbose}, 'nontrivial': int(m.startswith('wraps'))}
 
 
+class RerunSpec(Spec):
+    """the same DocTest object run twice, each time under another stream installed as sys.stdout (a re-run after a failure, a
+    caller that swaps its own capture in between): after each run the stream found at *its* start is back"""
+    prop = 'C12'
+    name = 'same-object-rerun'
+    title = 'process globals after running one DocTest object twice under different streams'
+    TERMS = ['pass', 'mismatch', 'exc', 'expexc', 'skip', 'exit', 'sysexit']
+    max_len = 5
+
+    def __init__(self):
+        self.rule = ('full product of body prefix %r x terminating event %r x on_error x verbosity of run 1 / run 2 in {(0,0), (0,3), (3,3)}; '
+                     'after each of the two runs sys.stdout / sys.stderr / sys.path / warning filters as found at its start; non-trivial = all' % (
+                         ['none', 'prints', 'swapout'], self.TERMS))
+
+    def histories(self, stats):
+        for p in ('none', 'prints', 'swapout'):
+            for t in self.TERMS:
+                for oe in ('return', 'raise'):
+                    for vs in ((0, 0), (0, 3), (3, 3)):
+                        yield (p, t, oe, vs)
+
+    def hist_cost(self, hist):
+        return 0
+
+    def run_case(self, hist):
+        from xdoctest.doctest_example import DocTest
+        prefix, term, on_error, vs = hist
+        lines = PREFIX[prefix] + TERM[term]
+        t = DocTest('\n'.join(lines))
+        t.mode = 'native'
+        t.config['colored'] = False
+        atoms = []
+        saved_out = sys.stdout
+        outer_path = list(sys.path)
+        how = None
+        try:
+            for rnd, verbose in enumerate(vs):
+                sink = io.StringIO()
+                sys.stdout = sink
+                before = snap()
+                try:
+                    t.run(on_error=on_error, verbose=verbose)
+                    how = 'returned'
+                except BaseException as ex:
+                    if type(ex).__name__ == 'CaseTimeout':
+                        raise
+                    how = 'raised:' + type(ex).__name__
+                bad = diff(before, snap())
+                restore(before)
+                for k in bad:
+                    atoms.append({'sig': 'leak:%s:run-%d-of-the-same-object' % (k, rnd + 1),
+                                  'msg': '%s changed by run %d (on_error=%s, verbose=%d, %s) of one DocTest object; doctest:\n%s' % (
+                                      k, rnd + 1, on_error, verbose, how, '\n'.join(lines))})
+        finally:
+            sys.stdout = saved_out
+            sys.path[:] = outer_path
+        seen = set()
+        uniq = []
+        for a in atoms:
+            if a['sig'] not in seen:
+                seen.add(a['sig'])
+                uniq.append(a)
+        return {'atoms': uniq, 'outcome': how, 'case': {'doctest': '\n'.join(lines), 'on_error': on_error, 'verbose': list(vs)}, 'nontrivial': 1}
+
+
 def specs(tier):
     if tier == 'thorough':
-        return [OutcomeSpec(), OutcomeSpec(prefix_pairs=True), AfterPoisonSpec(), ImportSpec(), ModuleUnderTestSpec()]
-    return [OutcomeSpec(), AfterPoisonSpec(), ImportSpec(), ModuleUnderTestSpec()]
+        return [OutcomeSpec(), OutcomeSpec(prefix_pairs=True), AfterPoisonSpec(), ImportSpec(), ModuleUnderTestSpec(), RerunSpec()]
+    return [OutcomeSpec(), AfterPoisonSpec(), ImportSpec(), ModuleUnderTestSpec(), RerunSpec()]
